@@ -147,6 +147,7 @@ static std::string runOne(const Config &cfg, const std::vector<ThreadProg> &prog
   sh->tr.add(vf::Ev("Begin").i("init", cfg.initial).i("max", cfg.max).i("cap", cfg.cap));
   vf::Options o = opt;
   o.maxSteps = 60000;
+  o.pointAfterUnlock = true;
   vf::reset(o);
   const ThreadProg *mainProg = nullptr;
   for (auto &tp : prog)
